@@ -31,7 +31,7 @@ use crate::prng::Rng;
 use crate::real::{Cfg, Proto};
 use crate::report::Report;
 
-const NOFILE: u64 = 160;
+const NOFILE: u64 = 400;
 
 type Held = Vec<Box<dyn Any + Send>>;
 
@@ -448,7 +448,8 @@ async fn apply(f: Fault, e: &mut Env, rng: &mut Rng, rep: &mut Report) -> Held {
             }
         }
         SrvSilentHeld => {
-            for _ in 0..8 {
+            // more than a hundred at the same time (a bound on connections that have not spoken yet must not starve others)
+            for _ in 0..140 {
                 if let Some(s) = connect(sp).await {
                     hold(&mut h, s);
                 }
@@ -668,6 +669,12 @@ async fn apply(f: Fault, e: &mut Env, rng: &mut Rng, rep: &mut Report) -> Held {
                         let _ = tokio::time::timeout(Duration::from_secs(2), s.read_exact(&mut r)).await;
                         let _ = s.write_all(b"\x05\x01\x00\x03\x09loc").await;
                     }
+                    hold(&mut h, s);
+                }
+            }
+            // and sixty that say nothing at all, all open at the same time
+            for _ in 0..60 {
+                if let Some(s) = connect(cp).await {
                     hold(&mut h, s);
                 }
             }
